@@ -30,15 +30,25 @@ type verifFile struct {
 	Data []byte `json:"data"`
 }
 
+// verifFault is one injected fault on the streaming call (ReadTo / WriteReader) for a path:
+// the call fails after the wrapper has really moved K bytes (K = 0: before touching the stream),
+// for the first Times calls on that path (1 = transient: the next call succeeds; large = persistent).
+// A failing call never reaches the wrapped backend, so it leaves the store unchanged.
+type verifFault struct {
+	Path  string `json:"path"`
+	K     int    `json:"k"`
+	Times int    `json:"times"`
+}
+
 type verifFaults struct {
-	ListSrc       bool     `json:"list_src"`
-	ReadSrc       []string `json:"read_src"`
-	WriteBk       []string `json:"write_bk"`
-	WriteManifest bool     `json:"write_manifest"`
-	ReadManifest  bool     `json:"read_manifest"`
-	ListBk        bool     `json:"list_bk"`
-	ReadBk        []string `json:"read_bk"`
-	WriteDst      []string `json:"write_dst"`
+	ListSrc       bool         `json:"list_src"`
+	ReadSrc       []verifFault `json:"read_src"`
+	WriteBk       []verifFault `json:"write_bk"`
+	WriteManifest bool         `json:"write_manifest"`
+	ReadManifest  bool         `json:"read_manifest"`
+	ListBk        bool         `json:"list_bk"`
+	ReadBk        []verifFault `json:"read_bk"`
+	WriteDst      []verifFault `json:"write_dst"`
 }
 
 type verifBackupCase struct {
@@ -97,8 +107,8 @@ var errVerifInjected = errors.New("verif: injected storage fault")
 type verifFaultBackend struct {
 	storage.Backend
 	listFail      bool
-	readFail      map[string]bool // keyed by ORIGINAL data path
-	writeFail     map[string]bool // keyed by ORIGINAL data path
+	readFail      map[string]*verifFault // keyed by ORIGINAL data path
+	writeFail     map[string]*verifFault // keyed by ORIGINAL data path
 	manifestRead  bool
 	manifestWrite bool
 }
@@ -125,8 +135,27 @@ func (b *verifFaultBackend) ListObjects(ctx context.Context, prefix string) ([]s
 	return b.Backend.(storage.ObjectLister).ListObjects(ctx, prefix)
 }
 
+// verifDue reports whether the next call on this path must fail, and consumes one failure.
+func verifDue(m map[string]*verifFault, path string) *verifFault {
+	f := m[verifOrig(path)]
+	if f == nil || f.Times <= 0 {
+		return nil
+	}
+	f.Times--
+	return f
+}
+
 func (b *verifFaultBackend) ReadTo(ctx context.Context, path string, w io.Writer) error {
-	if b.readFail[verifOrig(path)] {
+	if f := verifDue(b.readFail, path); f != nil {
+		if f.K > 0 { // mid-stream: the caller's writer really receives the first K bytes
+			if data, err := b.Backend.Read(ctx, path); err == nil {
+				k := f.K
+				if k > len(data) {
+					k = len(data)
+				}
+				_, _ = w.Write(data[:k])
+			}
+		}
 		return errVerifInjected
 	}
 	return b.Backend.ReadTo(ctx, path, w)
@@ -136,14 +165,17 @@ func (b *verifFaultBackend) Read(ctx context.Context, path string) ([]byte, erro
 	if b.manifestRead && strings.HasSuffix(path, "/manifest.json") {
 		return nil, errVerifInjected
 	}
-	if b.readFail[verifOrig(path)] {
+	if f := verifDue(b.readFail, path); f != nil {
 		return nil, errVerifInjected
 	}
 	return b.Backend.Read(ctx, path)
 }
 
 func (b *verifFaultBackend) WriteReader(ctx context.Context, path string, r io.Reader, size int64) error {
-	if b.writeFail[verifOrig(path)] {
+	if f := verifDue(b.writeFail, path); f != nil {
+		if f.K > 0 { // mid-stream: K bytes of the caller's reader are really consumed before the error
+			_, _ = io.CopyN(io.Discard, r, int64(f.K))
+		}
 		return errVerifInjected
 	}
 	return b.Backend.WriteReader(ctx, path, r, size)
@@ -153,16 +185,17 @@ func (b *verifFaultBackend) Write(ctx context.Context, path string, data []byte)
 	if b.manifestWrite && strings.HasSuffix(path, "/manifest.json") {
 		return errVerifInjected
 	}
-	if b.writeFail[verifOrig(path)] {
+	if f := verifDue(b.writeFail, path); f != nil {
 		return errVerifInjected
 	}
 	return b.Backend.Write(ctx, path, data)
 }
 
-func verifSet(l []string) map[string]bool {
-	m := make(map[string]bool, len(l))
-	for _, s := range l {
-		m[s] = true
+func verifSet(l []verifFault) map[string]*verifFault {
+	m := make(map[string]*verifFault, len(l))
+	for i := range l {
+		f := l[i] // private copy: the failure budget is consumed per wrapper
+		m[f.Path] = &f
 	}
 	return m
 }
